@@ -283,7 +283,7 @@ def qs_of_line(line):
     return []
 
 
-MODEL_CFG = "fixed"   # which variant of Rel.v mirrors /repo today (see Rel.v: legacy_cfg / f7_cfg / fixed_cfg)
+MODEL_CFG = "current"   # which variant of Rel.v mirrors /repo today (see Rel.v: legacy_cfg / f7_cfg / fixed_cfg)
 
 
 def run(ctx):
@@ -295,7 +295,12 @@ def run(ctx):
     rng = ctx.rng
     # ------------------------------------------------------------------ cases
     cases = []      # (line, qs, features, profile)
+    expectations = {}
     for line in load_corpus("c09_graphs.txt"):
+        k = line.find(" (expect ")
+        if k >= 0:
+            expectations[len(cases)] = sexpr.parse(line[k + 1:])[1:]
+            line = line[:k]
         cases.append((line, qs_of_line(line), {}, "corpus"))
     ncorpus = len(cases)
     n = ctx.n(3000, 60000)
@@ -394,13 +399,12 @@ def run(ctx):
         elif reported < 8:
             ctx.violation(obj)
             reported += 1
-    # regression probes of the repaired findings (corpus lines 1 and 2): exact expected answers
-    for idx, want in ((0, ["0", "0", "0", "1", "1"]), (1, ["1", "1"])):
-        if idx < ncorpus:
-            got = (parse_out(impl[idx]) or {}).get("rs", [])
-            if [g for g in got[:len(want)]] != want:
-                ctx.violation({"kind": "impl-violation", "statement": "regression probe of a repaired finding (%s)" % ("F7" if idx == 0 else "F12"),
-                               "case": cases[idx][0], "expected": want, "real_output": impl[idx]})
+    # regression probes (corpus lines carrying `(expect r ..)`): exact answers of the real functions
+    for idx, want in expectations.items():
+        got = (parse_out(impl[idx]) or {}).get("rs", [])
+        if got[:len(want)] != want:
+            ctx.violation({"kind": "impl-violation", "statement": "regression probe: the real functions no longer give the pinned (repaired) answers",
+                           "case": cases[idx][0], "expected": want, "real_output": impl[idx]})
     for i in dis_cases:
         ctx.violation({"kind": "correspondence-broken", "correspondence": "Rel.v/Narrow.v/Types.v (%s) vs types.rs/narrowing.rs/program.rs" % MODEL_CFG,
                        "case": cases[i][0], "model": model[i], "impl": impl[i]},
@@ -531,10 +535,11 @@ class RegView:
         return {("named" if self.types[t][1] != "-" else "unnamed") for t in ids if self.types[t][0] == "partial"}
 
 
-HIGHER = {"partial", "fn", "proc"}
-# provisional key (no id allocated yet): unnamed partial accepted where a named partial is expected;
-# repair proposed in hooks/fix_partial_name.patch
-PARTIAL_NAME_KEY = "C09-partial-name"
+# F25 (known): overlap/intersect incomplete where a callable or process type is reachable.  (Partial
+# types were part of it until fix 7ba69a0 = F25p; they no longer excuse a failure.)
+HIGHER = {"fn", "proc"}
+# F29 (fixed 2932723): unnamed partial accepted where a named partial is expected
+PARTIAL_NAME_KEY = "F29"
 
 
 def classify_known(regtext, stmt, a, b):
